@@ -46,6 +46,7 @@ def run(ctx):
         fs = ctx.facts(cfg)
         ctx.guard(consumers.ledger, ctx, cfg, fs, 'L.ledger')
         ctx.guard(consumers.ledger_callers, ctx, cfg, fs, 'L.ledger')
+        ctx.guard(consumers.forkers, ctx, cfg, fs, 'L.ledger')
         ctx.guard(consumers.primitives, ctx, cfg, fs, 'P.primitives')
         ctx.guard(consumers.itemstate, ctx, cfg, fs, 'P.primitives')
         ctx.guard(consumers.consumers, ctx, cfg, fs, 'C.read-remove')
@@ -55,7 +56,8 @@ def run(ctx):
         ctx.guard(scope_restore, ctx, cfg, fs)
         ctx.guard(tokenizer_append_only, ctx, cfg, fs)
         ctx.guard(consumers.accept_sets, ctx, cfg, fs, 'A.accept-sets')
-        import c08, c09, c11
+        import c08, c09, c11, c02
+        ctx.guard(c08.keep_only, ctx, lambda: c02.equals_value(ctx, cfg, fs), lambda o: True, 'A.accept-sets')
         if cfg != 'none':
             ctx.guard(c08.keep_only, ctx, lambda: c11.completion_marker(ctx, cfg, fs), lambda o: True, 'K.marker-only')
         ctx.guard(c08.keep_only, ctx, lambda: c09.tokenizer(ctx, cfg, fs), lambda o: 'marker-' in o.key, 'T.tokenizer')
